@@ -65,7 +65,7 @@ LEVEL["C10"] = dict(technique=T, text="AbyCodec transcribes the u64/i64 little-e
     "by the integer; decoded images must contain exactly the codec's bytes.", note=TRUST)
 LEVEL["C11"] = dict(technique=T, text="The contract state of the trace specification is a function map-id -> ideal map; every handle (clone, repeated lookup, lookup through a cloned "
     "database handle, with other parameters) denotes its name. Interleaved histories over 2-5 maps of mixed key types (names incl. ones that differ only "
-    "behind a dot) are validated per map; the file digests of the maps not operated on are compared across the others' updates (C11.others). The design "
+    "behind a dot) are validated per map; the file digests of the maps not operated on are compared across the others' updates (C11.others), and the updates of one map run alone in a fresh process and directory must give the files that map has next to its neighbours (C11.solo). The design "
     "under the contract (AbyReg: buffered instances, one registry per key type, handles as clones) is model-checked: OneInstance, Aliasing, FlushDurable, "
     "Registered hold when every getter consults its registry and signatures are distinct; TLC must violate OneInstance when a getter skips the registry "
     "(MCReg_nolookup) - the class of two seeded changes; for every number of names, types, handles and instances the same invariants are PROVED inductive "
